@@ -10,7 +10,7 @@ open Adaptix.Py
 /-! ### container loaders against the fault lists of their children -/
 
 theorem faults_loadIter {m : DebugTrail} (hm : m ≠ .disable) {s : Bool} {f : Factory}
-    {g : Val → Outcome Val} {Fc : Val → FaultList} (hc : ∀ x, FaultsRel m (g x) (Fc x)) (d : Val) :
+    {g : Val → Outcome Val} {Fc : Val → TrailFaultList} (hc : ∀ x, FaultsRel m (g x) (Fc x)) (d : Val) :
     FaultsRel m (loadIter ⟨m, s⟩ f g d)
       (if (s && (d.isMapping || d.isStr)) = true then [([], "ExcludedTypeLoadError")]
        else
@@ -29,7 +29,7 @@ theorem faults_loadIter {m : DebugTrail} (hm : m ≠ .disable) {s : Bool} {f : F
       exact faults_rel_bind (faults_seq_idx hm xs hc) (fun a e => trail_build_not_err _ _ _)
 
 theorem faults_loadTuple {m : DebugTrail} (hm : m ≠ .disable) {s : Bool}
-    {L : Ty → Val → Outcome Val} {Fc : Ty → Val → FaultList}
+    {L : Ty → Val → Outcome Val} {Fc : Ty → Val → TrailFaultList}
     (hc : ∀ t x, FaultsRel m (L t x) (Fc t x)) (elems : List Ty) (d : Val) :
     FaultsRel m (loadTuple ⟨m, s⟩ (elems.map L) d)
       (if (s && (d.isMapping || d.isStr)) = true then [([], "ExcludedTypeLoadError")]
@@ -66,7 +66,7 @@ theorem faults_loadTuple {m : DebugTrail} (hm : m ≠ .disable) {s : Bool}
             (fun a e => by simp)
 
 theorem faults_loadDict {m : DebugTrail} (hm : m ≠ .disable) {s : Bool}
-    {gk gv : Val → Outcome Val} {FK FV : Val → FaultList}
+    {gk gv : Val → Outcome Val} {FK FV : Val → TrailFaultList}
     (hk : ∀ x, FaultsRel m (gk x) (FK x)) (hv : ∀ x, FaultsRel m (gv x) (FV x)) (d : Val) :
     FaultsRel m (loadDict ⟨m, s⟩ gk gv d)
       (match d with
@@ -85,13 +85,13 @@ theorem faults_loadDict {m : DebugTrail} (hm : m ≠ .disable) {s : Bool}
     · exact faults_rel_leaf (cls := "TypeLoadError") (by decide) d
 
 theorem faults_loadModel {m : DebugTrail} (hm : m ≠ .disable) {s : Bool} {cls : String}
-    {fl : Field → Val → Outcome Val} {Fc : Field → Val → FaultList}
+    {fl : Field → Val → Outcome Val} {Fc : Field → Val → TrailFaultList}
     (hc : ∀ f x, FaultsRel m (fl f x) (Fc f x)) (fields : List Field) (d : Val) :
     FaultsRel m (loadModel ⟨m, s⟩ cls fields fl d)
       (match d with
        | .dict kvs =>
-         (if modelMissing kvs fields then [([], "NoRequiredFieldsLoadError")] else [])
-           ++ fields.flatMap (modelPresent Fc kvs)
+         (if faultsModelMissing kvs fields then [([], "NoRequiredFieldsLoadError")] else [])
+           ++ fields.flatMap (faultsModelPresent Fc kvs)
        | _ => [([], "TypeLoadError")]) := by
   unfold loadModel
   split
@@ -100,8 +100,8 @@ theorem faults_loadModel {m : DebugTrail} (hm : m ≠ .disable) {s : Bool} {cls 
   · rename_i hne
     have hspec : (match d with
        | .dict kvs =>
-         (if modelMissing kvs fields then [([], "NoRequiredFieldsLoadError")] else [])
-           ++ fields.flatMap (modelPresent Fc kvs)
+         (if faultsModelMissing kvs fields then [([], "NoRequiredFieldsLoadError")] else [])
+           ++ fields.flatMap (faultsModelPresent Fc kvs)
        | _ => [([], "TypeLoadError")]) = [([], "TypeLoadError")] := by
       split
       · exact absurd rfl (hne _)
